@@ -18,6 +18,9 @@
 //! prefix, mutated), a grammar-driven generator of mostly valid templates, a hostile list, every
 //! source of up to 3 (4) symbols over a small alphabet, nesting amplification of every nesting
 //! construct at depths around the limit and far beyond, flat width probes, rejected delimiter sets.
+//! Template SETS on an instance with fallback prefixes (`set_fallback_prefixes`): include / extends
+//! cycles, self references and chains whose names resolve only through a prefix, shadowed short
+//! names, several prefixes, at once (`add_raw_templates`) and one `add_raw_template` per template.
 //! Other entry points: `--replay <file>`, `--gen-debug N`, `--shape-check`.
 use std::collections::{BTreeMap, HashSet};
 use std::hash::{Hash, Hasher};
@@ -49,7 +52,21 @@ const SET_CHAIN_LINKS: usize = 2000;
 enum Action {
     Add,
     AddMany,
+    /// the same templates, one `add_raw_template` call each on the same instance (errors of
+    /// single calls do not stop the sequence)
+    AddIncremental,
     RenderStr,
+}
+
+impl Action {
+    fn label(self) -> &'static str {
+        match self {
+            Action::Add => "add_raw_template",
+            Action::AddMany => "add_raw_templates",
+            Action::AddIncremental => "add_raw_template-per-template",
+            Action::RenderStr => "render_str",
+        }
+    }
 }
 
 #[derive(Clone, Copy, PartialEq, Eq, Debug)]
@@ -79,6 +96,8 @@ struct Case {
     extra: Vec<(String, String)>,
     action: Action,
     stack: Stack,
+    /// `Some(list)`: `set_fallback_prefixes(list)` is called before anything is added
+    prefixes: Option<Vec<String>>,
 }
 
 fn enc(s: &str) -> String {
@@ -95,6 +114,7 @@ impl Case {
         let a = match self.action {
             Action::Add => "A",
             Action::AddMany => "M",
+            Action::AddIncremental => "I",
             Action::RenderStr => "R",
         };
         let s = match self.stack {
@@ -102,7 +122,12 @@ impl Case {
             Stack::Small => "s",
         };
         let d = self.d.fields().iter().map(|f| enc(f)).collect::<Vec<_>>().join(",");
-        let mut out = format!("{a} {s} {d} {} {}", enc(&self.name), enc(&self.src));
+        let pf = match &self.prefixes {
+            None => "~".to_string(),
+            Some(v) if v.is_empty() => "~0".to_string(),
+            Some(v) => v.iter().map(|p| enc(p)).collect::<Vec<_>>().join(","),
+        };
+        let mut out = format!("{a} {s} {d} {pf} {} {}", enc(&self.name), enc(&self.src));
         for (n, c) in &self.extra {
             out.push(' ');
             out.push_str(&enc(n));
@@ -117,6 +142,7 @@ impl Case {
         let action = match it.next()? {
             "A" => Action::Add,
             "M" => Action::AddMany,
+            "I" => Action::AddIncremental,
             "R" => Action::RenderStr,
             _ => return None,
         };
@@ -130,6 +156,11 @@ impl Case {
             return None;
         }
         let d = D::new(&df[0], &df[1], &df[2], &df[3], &df[4], &df[5]);
+        let prefixes = match it.next()? {
+            "~" => None,
+            "~0" => Some(Vec::new()),
+            pf => Some(pf.split(',').map(dec).collect::<Option<Vec<_>>>()?),
+        };
         let name = dec(it.next()?)?;
         let src = dec(it.next()?)?;
         let mut extra = Vec::new();
@@ -137,7 +168,7 @@ impl Case {
             let c = it.next()?;
             extra.push((dec(n)?, dec(c)?));
         }
-        Some(Case { stream: "wire", construct: String::new(), depth: 0, d, name, src, extra, action, stack })
+        Some(Case { stream: "wire", construct: String::new(), depth: 0, d, name, src, extra, action, stack, prefixes })
     }
 
     fn replay_json(&self, outcome: &str) -> serde_json::Value {
@@ -149,7 +180,9 @@ impl Case {
             "delims": self.d.to_json(),
             "name": self.name,
             "source": if self.src.len() <= 4000 { self.src.clone() } else { format!("{}… ({} bytes)", self.src.chars().take(400).collect::<String>(), self.src.len()) },
-            "action": match self.action { Action::Add => "add_raw_template", Action::AddMany => "add_raw_templates", Action::RenderStr => "render_str" },
+            "action": self.action.label(),
+            "fallback_prefixes": self.prefixes,
+            "all_templates": if total <= 4000 { serde_json::json!(std::iter::once((&self.name, &self.src)).chain(self.extra.iter().map(|(n, c)| (n, c))).map(|(n, c)| serde_json::json!([n, c])).collect::<Vec<_>>()) } else { serde_json::Value::Null },
             "stack": self.stack.label(),
             "outcome": outcome,
             "stream": self.stream,
@@ -198,10 +231,12 @@ impl Case {
         }
         let action = match j["action"].as_str()? {
             "add_raw_templates" => Action::AddMany,
+            "add_raw_template-per-template" => Action::AddIncremental,
             "render_str" => Action::RenderStr,
             _ => Action::Add,
         };
-        Some(Case { stream: "replay", construct: String::new(), depth: 0, d, name: j["name"].as_str()?.to_string(), src, extra, action, stack })
+        let prefixes = j["fallback_prefixes"].as_array().map(|a| a.iter().filter_map(|p| p.as_str().map(|s| s.to_string())).collect::<Vec<_>>());
+        Some(Case { stream: "replay", construct: String::new(), depth: 0, d, name: j["name"].as_str()?.to_string(), src, extra, action, stack, prefixes })
     }
 }
 
@@ -259,7 +294,24 @@ fn run_case(c: &Case, selftest: bool) -> String {
         if t.set_delimiters(c.d.to_delimiters()).is_err() {
             return "rejected".to_string();
         }
+        if let Some(pf) = &c.prefixes {
+            if t.set_fallback_prefixes(pf.clone()).is_err() {
+                return "err:Msg".to_string();
+            }
+        }
         let res = match c.action {
+            Action::AddIncremental => {
+                let mut first_err = None;
+                for (n, s) in std::iter::once((&c.name, &c.src)).chain(c.extra.iter().map(|(n, s)| (n, s))) {
+                    if let Err(e) = t.add_raw_template(n, s) {
+                        first_err.get_or_insert(e);
+                    }
+                }
+                match first_err {
+                    None => Ok(()),
+                    Some(e) => Err(e),
+                }
+            }
             Action::Add => t.add_raw_template(&c.name, &c.src),
             Action::AddMany => {
                 let mut all: Vec<(&str, &str)> = vec![(c.name.as_str(), c.src.as_str())];
@@ -707,7 +759,7 @@ fn rebuild(c: &Case, n: usize) -> Option<Case> {
 /// more than `SET_CHAIN_LINKS` templates each naming the next by `include` / `extends`: the shape
 /// of known finding F14 (unbounded recursion per template in `finalize_templates`)
 fn set_chain_shape(c: &Case) -> Option<String> {
-    if c.extra.len() < SET_CHAIN_LINKS {
+    if c.extra.len() < SET_CHAIN_LINKS || c.prefixes.is_some() {
         return None;
     }
     let mut next: std::collections::HashMap<&str, (&str, &'static str)> = std::collections::HashMap::new();
@@ -731,14 +783,16 @@ fn set_chain_shape(c: &Case) -> Option<String> {
             continue;
         }
         let (mut cur, mut len, mut kind) = (*start, 0usize, "");
+        // DISTINCT templates only: a cycle ends the walk
+        let mut walk: HashSet<&str> = HashSet::new();
         while let Some((nx, kw)) = next.get(cur) {
+            if !walk.insert(cur) {
+                break;
+            }
             done.insert(cur);
             len += 1;
             kind = kw;
             cur = nx;
-            if len > next.len() {
-                break;
-            }
         }
         if len > best.0 {
             best = (len, kind);
@@ -1820,7 +1874,7 @@ fn load_corpus() -> Corpus {
 // ---------------------------------------------------------------- case assembly
 
 fn mk(stream: &'static str, construct: &str, depth: usize, d: &D, name: &str, src: String, action: Action, stack: Stack) -> Case {
-    Case { stream, construct: construct.to_string(), depth, d: d.clone(), name: name.to_string(), src, extra: Vec::new(), action, stack }
+    Case { stream, construct: construct.to_string(), depth, d: d.clone(), name: name.to_string(), src, extra: Vec::new(), action, stack, prefixes: None }
 }
 
 /// render_str executes the template: keep it away from sources that may legitimately run long
@@ -1979,6 +2033,7 @@ fn fixed_cases(env: &Env, rng: &mut Rng, corpus: &Corpus, notes: &mut Vec<String
             cases.push(set_chain_case(kind, 100_000, &dd, Stack::Main));
         }
     }
+    cases.extend(prefix_set_cases(env, rng));
     // rejected delimiter sets, one of each kind, with sources that use them
     for _ in 0..env.budget(60, 600) {
         let d = gen_rejected(rng);
@@ -2008,10 +2063,196 @@ fn fixed_cases(env: &Env, rng: &mut Rng, corpus: &Corpus, notes: &mut Vec<String
     cases
 }
 
+const PREFIX_CONFIGS: &[&[&str]] = &[
+    &["themes/cool/"],
+    &["themes/cool"],
+    &[""],
+    &["日本/"],
+    &["child/", "parent/"],
+    &["parent/", "child/"],
+    &["a/", "a/b/"],
+    &["x/", "x/"],
+    &["/"],
+    &["themes/", "themes/cool/"],
+    &["é", "😀/", "--"],
+    &[],
+];
+
+fn set_case(stream: &'static str, construct: &str, depth: usize, d: &D, prefixes: &[&str], tpls: Vec<(String, String)>, action: Action, stack: Stack) -> Case {
+    let mut it = tpls.into_iter();
+    let (n0, s0) = it.next().unwrap_or_default();
+    let mut c = mk(stream, construct, depth, d, &n0, s0, action, stack);
+    c.extra = it.collect();
+    c.prefixes = Some(prefixes.iter().map(|p| p.to_string()).collect());
+    c
+}
+
+/// Template SETS registered on an instance with fallback prefixes: cycles, self references and
+/// chains whose `include` / `extends` names resolve only through a prefix, shadowed short names,
+/// several prefixes of different priority. Every registration must end in Ok or Err.
+fn prefix_set_cases(env: &Env, rng: &mut Rng) -> Vec<Case> {
+    let dd = D::default();
+    let mut out: Vec<Case> = Vec::new();
+    let short = |i: usize| format!("n{i}.html");
+    let mut delim_sets = vec![dd.clone()];
+    if !env.quick() {
+        delim_sets.push(handwritten_sets()[0].clone());
+        delim_sets.push(handwritten_sets()[7].clone());
+    }
+    for d in &delim_sets {
+        for pf in PREFIX_CONFIGS {
+            let p0 = pf.first().copied().unwrap_or("");
+            let p1 = pf.get(1).copied().unwrap_or(p0);
+            let mut sets: Vec<(String, usize, Vec<(String, String)>)> = Vec::new();
+            for kw in ["include", "extends"] {
+                // cycles of 1..=4 templates, every reference by SHORT name
+                for len in 1..=4usize {
+                    sets.push((format!("{kw}-cycle-short"), len, (0..len).map(|i| (format!("{p0}{}", short(i)), format!("<x>{}</x>", tg(d, &format!("{kw} \"{}\"", short((i + 1) % len)))))).collect()));
+                    // references alternate between the short and the full name
+                    sets.push((
+                        format!("{kw}-cycle-mixed"),
+                        len,
+                        (0..len)
+                            .map(|i| {
+                                let target = if i % 2 == 0 { short((i + 1) % len) } else { format!("{p0}{}", short((i + 1) % len)) };
+                                (format!("{p0}{}", short(i)), tg(d, &format!("{kw} \"{target}\"")))
+                            })
+                            .collect(),
+                    ));
+                    // the cycle alternates between two prefixes
+                    sets.push((
+                        format!("{kw}-cycle-two-prefixes"),
+                        len,
+                        (0..len).map(|i| (format!("{}{}", if i % 2 == 0 { p0 } else { p1 }, short(i)), tg(d, &format!("{kw} \"{}\"", short((i + 1) % len))))).collect(),
+                    ));
+                }
+                // acyclic chains through the prefix
+                for len in [2usize, 10, 100] {
+                    sets.push((
+                        format!("{kw}-chain-short"),
+                        len,
+                        (0..len).map(|i| (format!("{p0}{}", short(i)), if i + 1 < len { tg(d, &format!("{kw} \"{}\"", short(i + 1))) } else { "end".to_string() })).collect(),
+                    ));
+                }
+                // shadowing: the short name also exists as an exact template
+                sets.push((
+                    format!("{kw}-shadowed-plain"),
+                    2,
+                    vec![
+                        (format!("{p0}a.html"), tg(d, &format!("{kw} \"b.html\""))),
+                        (format!("{p0}b.html"), tg(d, &format!("{kw} \"a.html\""))),
+                        ("b.html".to_string(), "plain".to_string()),
+                    ],
+                ));
+                sets.push((
+                    format!("{kw}-shadowed-cycle"),
+                    3,
+                    vec![
+                        (format!("{p0}a.html"), tg(d, &format!("{kw} \"b.html\""))),
+                        (format!("{p0}b.html"), "unused".to_string()),
+                        ("b.html".to_string(), tg(d, &format!("{kw} \"a.html\""))),
+                    ],
+                ));
+                sets.push((
+                    format!("{kw}-both-prefixes-hold-target"),
+                    3,
+                    vec![
+                        (format!("{p0}a.html"), tg(d, &format!("{kw} \"b.html\""))),
+                        (format!("{p0}b.html"), tg(d, &format!("{kw} \"a.html\""))),
+                        (format!("{p1}b.html"), "other".to_string()),
+                        (format!("{p1}a.html"), tg(d, &format!("{kw} \"b.html\""))),
+                    ],
+                ));
+                // a template whose own name IS the prefix, or empty short name
+                sets.push((format!("{kw}-name-equals-prefix"), 1, vec![(p0.to_string(), tg(d, &format!("{kw} \"\"")))]));
+            }
+            // include and extends mixed in one cycle, blocks with super(), components of different priority
+            sets.push((
+                "include-extends-cycle".to_string(),
+                2,
+                vec![(format!("{p0}a.html"), tg(d, "extends \"b.html\"")), (format!("{p0}b.html"), format!("{}{}{}", tg(d, "block c"), tg(d, "include \"a.html\""), tg(d, "endblock")))],
+            ));
+            sets.push((
+                "blocks-through-prefix".to_string(),
+                3,
+                vec![
+                    (format!("{p1}base.html"), format!("{}base{}", tg(d, "block c"), tg(d, "endblock"))),
+                    (format!("{p0}mid.html"), format!("{}{}{}{}", tg(d, "extends \"base.html\""), tg(d, "block c"), v(d, "super()"), tg(d, "endblock"))),
+                    ("page.html".to_string(), format!("{}{}{}{}", tg(d, "extends \"mid.html\""), tg(d, "block c"), v(d, "super()"), tg(d, "endblock"))),
+                ],
+            ));
+            sets.push((
+                "components-by-priority".to_string(),
+                3,
+                vec![
+                    (format!("{p0}c1.html"), format!("{}one{}", tg(d, "component c()"), tg(d, "endcomponent"))),
+                    (format!("{p1}c2.html"), format!("{}two{}", tg(d, "component c()"), tg(d, "endcomponent"))),
+                    ("c3.html".to_string(), format!("{}three{}{}", tg(d, "component c()"), tg(d, "endcomponent"), v(d, "<c />"))),
+                ],
+            ));
+            for (construct, len, tpls) in sets {
+                let mut rev = tpls.clone();
+                rev.reverse();
+                out.push(set_case("prefix-set", &construct, len, d, pf, tpls.clone(), Action::AddMany, Stack::Small));
+                out.push(set_case("prefix-set", &construct, len, d, pf, rev.clone(), Action::AddMany, if rng.chance(1, 2) { Stack::Main } else { Stack::Small }));
+                out.push(set_case("prefix-set", &construct, len, d, pf, tpls, Action::AddIncremental, Stack::Small));
+                out.push(set_case("prefix-set", &construct, len, d, pf, rev, Action::AddIncremental, Stack::Small));
+            }
+        }
+    }
+    out
+}
+
+/// a random small template set on an instance with random fallback prefixes
+fn random_prefix_set(rng: &mut Rng) -> Case {
+    let d = if rng.chance(3, 4) { D::default() } else { gen_accepted(rng) };
+    let pool: &[&str] = &["themes/cool/", "themes/", "t/", "a/", "a/b/", "", "日本/", "x", "/", "../"];
+    let prefixes: Vec<&str> = (0..rng.below(4)).map(|_| *rng.pick(pool)).collect();
+    let shorts: &[&str] = &["a.html", "b.html", "base", "nav.html", "c/d.html", "é.html", ""];
+    let any_name = |rng: &mut Rng| -> String {
+        let s = *rng.pick(shorts);
+        if !prefixes.is_empty() && rng.chance(2, 3) { format!("{}{s}", rng.pick(&prefixes)) } else { s.to_string() }
+    };
+    let n = 1 + rng.below(5);
+    let mut tpls: Vec<(String, String)> = Vec::new();
+    for _ in 0..n {
+        let name = any_name(rng);
+        let mut src = String::new();
+        if rng.chance(1, 3) {
+            let target = if rng.chance(2, 3) { rng.pick(shorts).to_string() } else { any_name(rng) };
+            src.push_str(&tg(&d, &format!("extends \"{target}\"")));
+        }
+        for _ in 0..rng.below(4) {
+            match rng.below(4) {
+                0 | 1 => {
+                    let target = if rng.chance(2, 3) { rng.pick(shorts).to_string() } else { any_name(rng) };
+                    src.push_str(&tg(&d, &format!("include \"{target}\"")));
+                }
+                2 => {
+                    let b = format!("b{}", rng.below(3));
+                    src.push_str(&format!("{}{}{}", tg(&d, &format!("block {b}")), if rng.chance(1, 2) { v(&d, "super()") } else { "x".to_string() }, tg(&d, "endblock")));
+                }
+                _ => {
+                    let mut g = Gen { rng: &mut *rng, d: d.clone() };
+                    src.push_str(&g.body(1, false, false));
+                }
+            }
+        }
+        tpls.push((name, src));
+    }
+    let action = if rng.chance(1, 3) { Action::AddIncremental } else { Action::AddMany };
+    let stack = pick_stack(rng);
+    set_case("prefix-random", "", n, &d, &prefixes, tpls, action, stack)
+}
+
 /// `n` random cases: valid-ish generator output and mutations of it / of the corpus
 fn random_cases(rng: &mut Rng, corpus: &Corpus, n: usize) -> Vec<Case> {
     let mut cases = Vec::with_capacity(n);
     while cases.len() < n {
+        if rng.chance(1, 16) {
+            cases.push(random_prefix_set(rng));
+            continue;
+        }
         let d = pick_delims(rng);
         let nasty = nasty_snippets(&d);
         // a base source spelled with d
@@ -2101,34 +2342,69 @@ fn shrink_source(run: &Runner, c: &Case, class: &str, max_attempts: usize) -> Ca
             break;
         }
     }
-    let mut chars: Vec<char> = best.src.chars().collect();
-    let mut attempts = 0;
-    let mut n = 2usize;
-    let deadline = Instant::now() + Duration::from_secs(40);
-    while chars.len() >= 2 && attempts < max_attempts && Instant::now() < deadline {
-        let chunk = chars.len().div_ceil(n);
-        let mut reduced = false;
+    // single extra templates, one at a time (small sets)
+    if best.extra.len() <= 8 {
         let mut i = 0;
-        while i < chars.len() && attempts < max_attempts {
-            let j = (i + chunk).min(chars.len());
-            let cand: String = chars[..i].iter().chain(chars[j..].iter()).collect();
+        while i < best.extra.len() {
             let mut t = best.clone();
-            t.src = cand;
-            attempts += 1;
-            if class_of(&run.one(&t, run.timeout)) == class {
-                chars = t.src.chars().collect();
-                best = t;
-                reduced = true;
-                n = n.saturating_sub(1).max(2);
-                break;
-            }
-            i = j;
+            t.extra.remove(i);
+            if class_of(&run.one(&t, run.timeout)) == class { best = t } else { i += 1 }
         }
-        if !reduced {
-            if chunk <= 1 {
-                break;
+    }
+    // fallback prefixes, one at a time
+    if let Some(pf) = best.prefixes.clone() {
+        let mut i = 0;
+        let mut cur = pf;
+        while i < cur.len() {
+            let mut t = best.clone();
+            let mut fewer = cur.clone();
+            fewer.remove(i);
+            t.prefixes = Some(fewer.clone());
+            if class_of(&run.one(&t, run.timeout)) == class {
+                best = t;
+                cur = fewer;
+            } else {
+                i += 1;
             }
-            n = (n * 2).min(chars.len());
+        }
+    }
+    // then the text of the main template and of up to four further templates
+    let deadline = Instant::now() + Duration::from_secs(40);
+    let mut attempts = 0usize;
+    let slots = 1 + best.extra.len().min(4);
+    for slot in 0..slots {
+        let text = if slot == 0 { best.src.clone() } else { best.extra[slot - 1].1.clone() };
+        let with = |base: &Case, txt: String| {
+            let mut t = base.clone();
+            if slot == 0 { t.src = txt } else { t.extra[slot - 1].1 = txt }
+            t
+        };
+        let mut chars: Vec<char> = text.chars().collect();
+        let mut n = 2usize;
+        while !chars.is_empty() && attempts < max_attempts && Instant::now() < deadline {
+            let chunk = chars.len().div_ceil(n);
+            let mut reduced = false;
+            let mut i = 0;
+            while i < chars.len() && attempts < max_attempts {
+                let j = (i + chunk).min(chars.len());
+                let cand: String = chars[..i].iter().chain(chars[j..].iter()).collect();
+                let t = with(&best, cand.clone());
+                attempts += 1;
+                if class_of(&run.one(&t, run.timeout)) == class {
+                    chars = cand.chars().collect();
+                    best = t;
+                    reduced = true;
+                    n = n.saturating_sub(1).max(2);
+                    break;
+                }
+                i = j;
+            }
+            if !reduced {
+                if chunk <= 1 {
+                    break;
+                }
+                n = (n * 2).min(chars.len());
+            }
         }
     }
     best
@@ -2325,7 +2601,16 @@ fn replay(path: &str, run: &Runner, env: &Env) {
         println!("replay file lacks delims/name/source_hex");
         return;
     };
-    println!("delimiters: {:?}  name: {:?}  action: {:?}  stack: {}  source: {} bytes", c.d.fields(), c.name, c.action, c.stack.label(), c.src.len());
+    println!(
+        "delimiters: {:?}  fallback prefixes: {:?}  name: {:?}  action: {}  stack: {}  source: {} bytes  templates: {}",
+        c.d.fields(),
+        c.prefixes,
+        c.name,
+        c.action.label(),
+        c.stack.label(),
+        c.src.len(),
+        1 + c.extra.len()
+    );
     println!("recorded outcome: {}", j["outcome"].as_str().unwrap_or("?"));
     let out = run.one(&c, run.confirm_timeout);
     println!("implementation (child process): {out}");
@@ -2447,11 +2732,17 @@ fn process_round(cases: &[Case], run: &Runner, drv: Option<&Path>, report: &mut 
         if class == "err" || class == "display-panic" {
             report.count(&format!("error-kind.{}", o.trim_start_matches("err:").split('!').next().unwrap_or("")));
         }
+        if c.stream == "prefix-set" {
+            report.count(&format!("prefix-set.{}.{class}", c.construct));
+        }
+        if c.prefixes.is_some() {
+            report.count(&format!("fallback-prefixes.{}", c.prefixes.as_ref().map(|p| p.len()).unwrap_or(0)));
+        }
         report.count(&format!("delims.{}", d_class(&c.d)));
         report.count(&format!("source-bytes.{}", len_bucket(c.src.len())));
         report.count(&format!("action.{:?}", c.action));
         report.count(&format!("stack.{}", c.stack.label()));
-        if !c.construct.is_empty() && !matches!(c.stream, "nest-probe" | "width-probe" | "f1-probe" | "chain-100" | "set-chain-probe" | "set-chain") {
+        if !c.construct.is_empty() && !matches!(c.stream, "nest-probe" | "width-probe" | "f1-probe" | "chain-100" | "set-chain-probe" | "set-chain" | "prefix-set") {
             report.count(&format!("mutation.{}", c.construct));
         }
         if c.d.accepted() && agg.distinct.insert(case_hash(c)) {
@@ -2833,6 +3124,10 @@ fn main() {
         let shape = chain_shape(&small.src, &small.d);
         let set_shape = set_chain_shape(&small);
         let mut rj = small.replay_json(&outcome);
+        if let Some(pf) = &small.prefixes {
+            let all: Vec<String> = std::iter::once((&small.name, &small.src)).chain(small.extra.iter().map(|(n, s)| (n, s))).take(6).map(|(n, s)| format!("{n:?}: {:?}", s.chars().take(80).collect::<String>())).collect();
+            detail.push_str(&format!(" [fallback prefixes {pf:?}; templates {}]", all.join(", ")));
+        }
         if let Some(ss) = &set_shape {
             rj["set_shape"] = ss.clone().into();
             detail.push_str(&format!(" [{ss}: {} templates in one add_raw_templates call]", small.extra.len() + 1));
@@ -2842,8 +3137,8 @@ fn main() {
         let v = Violation {
             kind: "property".into(),
             summary: format!(
-                "{outcome} (stack {stack}, {:?}) on {:?}{} [stream {stream} {construct}]{detail}: registering must end in Ok or Err",
-                small.action,
+                "{outcome} (stack {stack}, {}) on {:?}{} [stream {stream} {construct}]{detail}: registering must end in Ok or Err",
+                small.action.label(),
                 small.src.chars().take(160).collect::<String>(),
                 if small.src.len() > 160 { "…" } else { "" }
             ),
